@@ -42,7 +42,7 @@ def run(tier, replay=None):
     rng = random.Random(evidence.seed())
     s = scratch.make()
     scratch.activate(s)
-    plans = [("core_maths", 3, 1), ("core_maths", 4, 1)] if tier == "quick" else [("core_maths", 3, 2), ("core_maths", 4, 2), ("core_maths", 5, 1), ("ext_maths", 3, 1)]
+    plans = [("core_maths", 3, 2), ("core_maths", 4, 1)] if tier == "quick" else [("core_maths", 3, 3), ("core_maths", 4, 3), ("core_maths", 5, 2), ("ext_maths", 3, 2)]
     cases, meta = [], []
     for name, n, ndata in plans:
         basis = bases.SHIPPED[name]
@@ -54,7 +54,8 @@ def run(tier, replay=None):
         x = np.linspace(0.6, 3.0, 24)
         for di in range(ndata):
             nrng = np.random.RandomState(evidence.seed() * 10 + di + n)
-            truth = {0: lambda x: 1.7 * x - 0.8, 1: lambda x: 2.4 / x + 0.5}[di % 2]
+            # the second data set has a negligible intercept: trees with an additive parameter get it snapped to zero
+            truth = {0: lambda x: 2.0 * x + 0.004, 1: lambda x: 1.7 * x - 0.8, 2: lambda x: 2.4 / x + 0.5}[di % 3]
             sig0 = 0.1
             y = truth(x) + sig0 * nrng.standard_normal(len(x))
             sig = np.full(len(x), sig0)
@@ -139,6 +140,34 @@ def run(tier, replay=None):
                     cases.append(rec2)
                     meta.append((key + ":string", "formula string entry point %r -> labels %s nll %.6f DL %.6f vs labels entry point nll %.6f DL %.6f" % (
                         model[tuple(t)]["infix"], o["s_labels"], o["s_nll"], o["s_dl"], o["nll"], o["dl"]), {"labels": t, "single": o}))
+            # formulas with numeric literals next to parameters: the string entry point must fit exactly the formula's parameters
+            lit = [("a0 + 3*x", ["+", "a0", "*", "3", "x"]), ("a0*x - 2", ["-", "*", "a0", "x", "2"]), ("2*x + a0/x", ["+", "*", "2", "x", "/", "a0", "x"]),
+                   ("a0*x + a1/x + 2", ["+", "+", "*", "a0", "x", "/", "a1", "x", "2"])]
+            ljobs = [{"id": 1000 + q, "labels": lab, "infix": f, "basis": basis, "data_dir": dd, "fn_set": name, "seed": evidence.seed() + q} for q, (f, lab) in enumerate(lit)]
+            jp, op = os.path.join(s, "c20_lit.json"), os.path.join(s, "c20_lit_out.json")
+            json.dump(ljobs, open(jp, "w"))
+            lo_ = pool.parallel("checks.c20:single_batch", [(jp, op)], s, timeout=3000)
+            if lo_[0][0] != 0:
+                raise RuntimeError("single-fit worker failed: " + lo_[0][1][-800:])
+            for o in json.load(open(op)):
+                f, lab = lit[o["id"] - 1000]
+                key = "%s:n%d:d%d:literal:%s" % (name, n, di, f)
+                if "s_raised" in o:
+                    r.violation("raised_string:" + key, "fit_from_string(%r) raised %s" % (f, o["s_raised"]), {"formula": f})
+                    continue
+                ft = wls.fit(lab, x, y, sig)
+                kfit = sum(1 for l in o["s_labels"] if l.startswith("a") and l[1:].isdigit())
+                c2 = classes({"s": o["s_nll"], "c": ft["nll"]}, lambda m: max(2e-3, 2e-6 * m))
+                try:
+                    at = wls.gauss_nll(p1.tree_values(o["s_labels"], x=x, a=[np.full_like(x, v) for v in (o["s_params"] + [0, 0, 0, 0])[:4]])[0], y, sig)
+                except Exception:
+                    at = float("nan")
+                snapped = any(v == 0.0 for v in o["s_params"][:ft["k"]])
+                rec = {"id": len(cases), "kind": "single", "sumOK": True, "paramsOK": bool(abs(at - o["s_nll"]) <= 1e-9 * max(1.0, abs(at))), "hasPipe": False, "tie": True,
+                       "nllSingle": c2["s"], "nllClosed": c2["s"] if snapped else c2["c"], "dlSingle": 0, "dlClosed": 0, "nllPipe": NAN, "dlPipe": NAN}
+                cases.append(rec)
+                meta.append((key, "formula %r: fitted labels %s (%d distinct parameters, the formula has %d), nll %.6f, closed form for the formula %.6f, L(returned params on returned labels) %.6f" % (
+                    f, o["s_labels"], len({l for l in o["s_labels"] if l.startswith("a") and l[1:].isdigit()}), ft["k"], o["s_nll"], ft["nll"], at), {"formula": f, "single": o}))
             r.add("datasets", evaluations=1, nontrivial=1, traces=1, **{"%s_n%d_d%d" % (name, n, di): dict(linear_trees=len(closed))})
             if closed:
                 i = sorted(closed)[0]
